@@ -50,13 +50,13 @@ pub struct Analysis {
     pub classes: BTreeSet<String>,
 }
 
-fn or_into(a: &mut [u64], b: &[u64]) {
+fn or_into(a: &mut [Bits], b: &[Bits]) {
     for (x, y) in a.iter_mut().zip(b) {
         *x |= *y;
     }
 }
 
-fn may_writes(stmts: &[Stmt], vars: &[VarDecl], lv: Option<usize>, out: &mut [u64]) {
+fn may_writes(stmts: &[Stmt], vars: &[VarDecl], lv: Option<usize>, out: &mut [Bits]) {
     for s in stmts {
         match s {
             Stmt::Asg(r, _) => out[r.var] |= r.mask(vars, lv),
@@ -92,7 +92,7 @@ fn may_writes(stmts: &[Stmt], vars: &[VarDecl], lv: Option<usize>, out: &mut [u6
 }
 
 /// all writes in textual (unrolled) order
-fn write_list(stmts: &[Stmt], vars: &[VarDecl], lv: Option<usize>, out: &mut Vec<(usize, u64)>) {
+fn write_list(stmts: &[Stmt], vars: &[VarDecl], lv: Option<usize>, out: &mut Vec<(usize, Bits)>) {
     for s in stmts {
         match s {
             Stmt::Asg(r, _) => out.push((r.var, r.mask(vars, lv))),
@@ -152,42 +152,42 @@ pub fn case_is_full(sw: usize, arms: &[(Vec<Pat>, Vec<Stmt>)]) -> bool {
 }
 
 /// read kinds: 0 right-hand side, 1 condition / selector, 2 instance input
-pub type Reads = Vec<[u64; 3]>;
+pub type Reads = Vec<[Bits; 3]>;
 
 struct Walk<'a> {
     vars: &'a [VarDecl],
     /// interpretation: a full `case` without default still has a "no arm" path
     ft: bool,
     comb: bool,
-    must: Vec<u64>,
-    may: Vec<u64>,
-    wlist: Vec<(usize, u64)>,
+    must: Vec<Bits>,
+    may: Vec<Bits>,
+    wlist: Vec<(usize, Bits)>,
     wseq: usize,
-    rbw_strict: Vec<u64>,
-    rbw_loose: Vec<u64>,
+    rbw_strict: Vec<Bits>,
+    rbw_loose: Vec<Bits>,
     /// (var, bits, read in a condition, bits possibly assigned before on another path)
-    strict_items: Vec<(usize, u64, bool, u64)>,
+    strict_items: Vec<(usize, Bits, bool, Bits)>,
     // analyzer-like textual accumulators: signature naming only
-    ref_t: Vec<u64>,
-    asg_t: Vec<u64>,
+    ref_t: Vec<Bits>,
+    asg_t: Vec<Bits>,
     emu_rbw: Vec<bool>,
     /// read, textually unassigned bits whose later write went unflagged
     /// because the write also covers a read bit that is already assigned
-    emu_overlap: Vec<u64>,
-    emu_ub_inner: Vec<u64>,
+    emu_overlap: Vec<Bits>,
+    emu_ub_inner: Vec<Bits>,
     reads: &'a mut Reads,
     has_full_case_nodefault: bool,
 }
 
 impl<'a> Walk<'a> {
-    fn later_mask(&self, u: usize) -> u64 {
+    fn later_mask(&self, u: usize) -> Bits {
         self.wlist[self.wseq.min(self.wlist.len())..]
             .iter()
             .filter(|w| w.0 == u)
-            .fold(0, |a, w| a | w.1)
+            .fold(Bits::ZERO, |a, w| a | w.1)
     }
 
-    fn read(&mut self, r: &Ref, lv: Option<usize>, cond: bool, cont: &[u64]) {
+    fn read(&mut self, r: &Ref, lv: Option<usize>, cond: bool, cont: &[Bits]) {
         let u = r.var;
         let rm = r.mask(self.vars, lv);
         self.reads[u][if cond { 1 } else { 0 }] |= rm;
@@ -199,7 +199,7 @@ impl<'a> Walk<'a> {
         let loose = un & self.later_mask(u);
         self.rbw_strict[u] |= strict;
         self.rbw_loose[u] |= loose;
-        if strict != 0 {
+        if strict.any() {
             self.strict_items.push((u, strict, cond, strict & self.may[u]));
         }
         if !cond {
@@ -207,7 +207,7 @@ impl<'a> Walk<'a> {
         }
     }
 
-    fn reads_of(&mut self, e: &Expr, lv: Option<usize>, cond: bool, cont: &[u64]) {
+    fn reads_of(&mut self, e: &Expr, lv: Option<usize>, cond: bool, cont: &[Bits]) {
         let mut rs = vec![];
         e.reads(&mut rs);
         for r in rs {
@@ -216,9 +216,9 @@ impl<'a> Walk<'a> {
     }
 
     /// run alternative bodies from the current state, join them
-    fn alternatives(&mut self, bodies: &[&[Stmt]], lv: Option<usize>, cont: &[u64]) {
+    fn alternatives(&mut self, bodies: &[&[Stmt]], lv: Option<usize>, cont: &[Bits]) {
         let (m0, y0) = (self.must.clone(), self.may.clone());
-        let mut acc_must: Option<Vec<u64>> = None;
+        let mut acc_must: Option<Vec<Bits>> = None;
         let mut acc_may = y0.clone();
         for b in bodies {
             self.must = m0.clone();
@@ -242,10 +242,10 @@ impl<'a> Walk<'a> {
     /// once the may-writes seen so far are added
     fn emu_inner(&mut self, bodies: &[&[Stmt]], lv: Option<usize>) {
         let n = self.vars.len();
-        let ws: Vec<Vec<u64>> = bodies
+        let ws: Vec<Vec<Bits>> = bodies
             .iter()
             .map(|b| {
-                let mut w = vec![0u64; n];
+                let mut w = vec![Bits::ZERO; n];
                 may_writes(b, self.vars, lv, &mut w);
                 for v in 0..n {
                     w[v] |= self.may[v];
@@ -254,14 +254,14 @@ impl<'a> Walk<'a> {
             })
             .collect();
         for v in 0..n {
-            let uni = ws.iter().fold(0, |a, w| a | w[v]);
+            let uni = ws.iter().fold(Bits::ZERO, |a, w| a | w[v]);
             for w in &ws {
                 self.emu_ub_inner[v] |= uni ^ w[v];
             }
         }
     }
 
-    fn block(&mut self, stmts: &[Stmt], lv: Option<usize>, cont: &[u64]) {
+    fn block(&mut self, stmts: &[Stmt], lv: Option<usize>, cont: &[Bits]) {
         let n = self.vars.len();
         for (k, s) in stmts.iter().enumerate() {
             let mut cont_k = cont.to_vec();
@@ -273,9 +273,9 @@ impl<'a> Walk<'a> {
                     let mut cw = cont_k.clone();
                     cw[v] |= m;
                     self.reads_of(e, lv, false, &cw);
-                    if self.comb && self.ref_t[v] & m != 0 {
+                    if self.comb && (self.ref_t[v] & m).any() {
                         let rm = self.ref_t[v] & m;
-                        if rm & self.asg_t[v] == 0 {
+                        if (rm & self.asg_t[v]).none() {
                             self.emu_rbw[v] = true;
                         } else {
                             self.emu_overlap[v] |= rm & !self.asg_t[v];
@@ -365,13 +365,13 @@ impl<'a> Walk<'a> {
 }
 
 struct CombRes {
-    ub: Vec<u64>,
-    rbw_strict: Vec<u64>,
-    rbw_loose: Vec<u64>,
-    strict_items: Vec<(usize, u64, bool, u64)>,
+    ub: Vec<Bits>,
+    rbw_strict: Vec<Bits>,
+    rbw_loose: Vec<Bits>,
+    strict_items: Vec<(usize, Bits, bool, Bits)>,
     emu_rbw: Vec<bool>,
-    emu_overlap: Vec<u64>,
-    emu_ub_inner: Vec<u64>,
+    emu_overlap: Vec<Bits>,
+    emu_ub_inner: Vec<Bits>,
     full_case: bool,
 }
 
@@ -383,24 +383,24 @@ fn walk_proc(vars: &[VarDecl], body: &[Stmt], comb: bool, ft: bool, reads: &mut 
         vars,
         ft,
         comb,
-        must: vec![0; n],
-        may: vec![0; n],
+        must: vec![Bits::ZERO; n],
+        may: vec![Bits::ZERO; n],
         wlist,
         wseq: 0,
-        rbw_strict: vec![0; n],
-        rbw_loose: vec![0; n],
+        rbw_strict: vec![Bits::ZERO; n],
+        rbw_loose: vec![Bits::ZERO; n],
         strict_items: vec![],
-        ref_t: vec![0; n],
-        asg_t: vec![0; n],
+        ref_t: vec![Bits::ZERO; n],
+        asg_t: vec![Bits::ZERO; n],
         emu_rbw: vec![false; n],
-        emu_overlap: vec![0; n],
-        emu_ub_inner: vec![0; n],
+        emu_overlap: vec![Bits::ZERO; n],
+        emu_ub_inner: vec![Bits::ZERO; n],
         reads,
         has_full_case_nodefault: false,
     };
-    let cont = vec![0u64; n];
+    let cont = vec![Bits::ZERO; n];
     w.block(body, None, &cont);
-    let ub: Vec<u64> = (0..n).map(|v| w.may[v] & !w.must[v]).collect();
+    let ub: Vec<Bits> = (0..n).map(|v| w.may[v] & !w.must[v]).collect();
     CombRes {
         ub,
         rbw_strict: w.rbw_strict,
@@ -419,12 +419,12 @@ pub fn analyse(dsg: &Design) -> Analysis {
     let mut classes = BTreeSet::new();
     // ---- writers per bit, assigned bits, reads --------------------------
     let mut writers: Vec<Vec<BTreeSet<usize>>> = vars.iter().map(|v| vec![BTreeSet::new(); v.bits()]).collect();
-    let mut assigned = vec![0u64; n];
-    let mut reads: Reads = vec![[0u64; 3]; n];
-    let add_writes = |pi: usize, w: &[u64], writers: &mut Vec<Vec<BTreeSet<usize>>>, assigned: &mut Vec<u64>| {
+    let mut assigned = vec![Bits::ZERO; n];
+    let mut reads: Reads = vec![[Bits::ZERO; 3]; n];
+    let add_writes = |pi: usize, w: &[Bits], writers: &mut Vec<Vec<BTreeSet<usize>>>, assigned: &mut Vec<Bits>| {
         for v in 0..n {
             for b in 0..vars[v].bits() {
-                if w[v] >> b & 1 == 1 {
+                if w[v].bit(b) {
                     writers[v][b].insert(pi);
                 }
             }
@@ -434,7 +434,7 @@ pub fn analyse(dsg: &Design) -> Analysis {
     let mut comb_a: Vec<CombRes> = vec![];
     let mut comb_b: Vec<CombRes> = vec![];
     for (pi, p) in dsg.procs.iter().enumerate() {
-        let mut w = vec![0u64; n];
+        let mut w = vec![Bits::ZERO; n];
         match p {
             Proc::Assign(r, e) => {
                 w[r.var] |= r.mask(vars, None);
@@ -462,7 +462,7 @@ pub fn analyse(dsg: &Design) -> Analysis {
             }
             Proc::Comb(b) => {
                 may_writes(b, vars, None, &mut w);
-                let mut scratch: Reads = vec![[0u64; 3]; n];
+                let mut scratch: Reads = vec![[Bits::ZERO; 3]; n];
                 comb_a.push(walk_proc(vars, b, true, true, &mut reads));
                 comb_b.push(walk_proc(vars, b, true, false, &mut scratch));
             }
@@ -477,20 +477,20 @@ pub fn analyse(dsg: &Design) -> Analysis {
         // MultipleAssignment
         let ma = writers[v].iter().any(|s| s.len() >= 2);
         // UncoveredBranch under both readings of a full case without default
-        let ub_a = comb_a.iter().any(|c| c.ub[v] != 0);
-        let ub_b = comb_b.iter().any(|c| c.ub[v] != 0);
+        let ub_a = comb_a.iter().any(|c| c.ub[v].any());
+        let ub_b = comb_b.iter().any(|c| c.ub[v].any());
         let ub = match (ub_a, ub_b) {
             (true, true) => Verdict::Must,
             (false, false) => Verdict::MustNot,
             _ => Verdict::Open,
         };
-        let emu_inner = comb_a.iter().any(|c| c.emu_ub_inner[v] != 0);
+        let emu_inner = comb_a.iter().any(|c| c.emu_ub_inner[v].any());
         let ub_spurious_tag = if emu_inner { "covered-by-later-write" } else { "" };
         // UnassignVariable: never-assigned part
         let un = full & !assigned[v];
         let rd_any = reads[v][0] | reads[v][1] | reads[v][2];
-        let ext = if vd.out { full } else { 0 };
-        let never_must = un & (rd_any | ext) != 0;
+        let ext = if vd.out { full } else { Bits::ZERO };
+        let never_must = (un & (rd_any | ext)).any();
         let mut elem_all_unassigned = false;
         let mut never_plain = false;
         for e in 0..vd.elems {
@@ -499,14 +499,14 @@ pub fn analyse(dsg: &Design) -> Analysis {
             if ue == em {
                 elem_all_unassigned = true;
                 never_plain = true; // reported whatever the reads are
-            } else if ue & (reads[v][0] | ext) != 0 {
+            } else if (ue & (reads[v][0] | ext)).any() {
                 never_plain = true;
             }
         }
         // read-before-assign part
-        let st_a = comb_a.iter().any(|c| c.rbw_strict[v] != 0);
-        let st_b = comb_b.iter().any(|c| c.rbw_strict[v] != 0);
-        let loose = comb_a.iter().chain(comb_b.iter()).any(|c| c.rbw_loose[v] != 0);
+        let st_a = comb_a.iter().any(|c| c.rbw_strict[v].any());
+        let st_b = comb_b.iter().any(|c| c.rbw_strict[v].any());
+        let loose = comb_a.iter().chain(comb_b.iter()).any(|c| c.rbw_loose[v].any());
         let rbw_must = st_a && st_b;
         let uv = if never_must || rbw_must {
             Verdict::Must
@@ -519,18 +519,18 @@ pub fn analyse(dsg: &Design) -> Analysis {
         let rbw_plain = comb_a.iter().any(|c| c.emu_rbw[v]);
         let uv_missing_tag = if (never_must && never_plain) || rbw_plain {
             ""
-        } else if never_must && un & reads[v][1] != 0 {
+        } else if never_must && (un & reads[v][1]).any() {
             "condition-read-not-counted"
-        } else if never_must && un & reads[v][2] != 0 {
+        } else if never_must && (un & reads[v][2]).any() {
             "inst-input-read-not-counted"
         } else {
-            let items: Vec<&(usize, u64, bool, u64)> =
+            let items: Vec<&(usize, Bits, bool, Bits)> =
                 comb_a.iter().flat_map(|c| c.strict_items.iter()).filter(|i| i.0 == v).collect();
             if items.is_empty() {
                 ""
             } else if items.iter().all(|i| i.2) {
                 "condition-read-not-counted"
-            } else if comb_a.iter().any(|c| c.emu_overlap[v] & c.rbw_strict[v] != 0) {
+            } else if comb_a.iter().any(|c| (c.emu_overlap[v] & c.rbw_strict[v]).any()) {
                 "partial-overlap"
             } else {
                 "assigned-on-other-path"
@@ -567,7 +567,7 @@ pub fn analyse(dsg: &Design) -> Analysis {
             }
             _ => {}
         }
-        if un != 0 && uv == Verdict::MustNot {
+        if un.any() && uv == Verdict::MustNot {
             classes.insert("boundary:partially-assigned,gap-unread".into());
         }
         out.push(VarExpect {
